@@ -48,7 +48,7 @@ def efficiency_bin(G, local=False):
         np.fill_diagonal(D, 0)
         return D
 
-    G = binarize(G)
+    G = np.array(binarize(G), dtype=float)
     n = len(G)  # number of nodes
     if local:
         E = np.zeros((n,))  # local efficiency
